@@ -30,16 +30,12 @@ Qed.
 Lemma good_try_make c j be : good true be true be (try_make P c j).
 Proof.
   unfold try_make. sbind (apply good_pop).
-  destruct a as [|e].
-  - sbind (apply good_fresh_sid). sbind glog.
-    apply good_try_same.
-    + sbind (destruct (c_nodelay c); [gcall|apply good_ret]).
-      destruct (c_tls c); [|apply good_ret].
-      sbind (apply good_pop). destruct a2.
-      * sbind (apply good_fresh_wrapped). sbind glog. apply good_ret.
-      * sbind glog. apply good_throw.
-    + intros e. sbind gcall. apply good_ret.
-  - sbind glog. destruct (exn_isa e Exception_); [apply good_ret|apply good_throw].
+  destruct a as [|e|e].
+  2:{ sbind glog. destruct (exn_isa e Exception_); [apply good_ret|apply good_throw]. }
+  all: sbind (apply good_fresh_sid); sbind glog; apply good_try_same; [|intros e0; sbind gcall; apply good_ret];
+    sbind (destruct (c_nodelay c); [gcall|apply good_ret]); (destruct (c_tls c); [|apply good_ret]);
+    sbind (apply good_pop); destruct a2; [|sbind glog; apply good_throw|];
+    (sbind (apply good_fresh_wrapped); sbind glog; apply good_ret).
 Qed.
 
 Lemma good_addr_loop c be : forall n j err, good true be true be (addr_loop P c j n err).
@@ -77,6 +73,7 @@ Proof.
   - sbind (apply good_pop). destruct a.
     + sbind (apply good_fresh_sid). sbind glog. apply good_ret.
     + sbind glog. apply good_throw.
+    + sbind (apply good_fresh_sid). sbind glog. apply good_ret.
 Qed.
 
 Lemma good_client_connect c sn be : good sn be false be (client_connect P c).
